@@ -37,6 +37,7 @@ OPEN_STATEMENTS = [
     'su2_relations for all n: oracle only (n <= 3)',
     'RichardsonGaudin: Model + documented-form oracle only, no theorem; get_antisymmetrized_tensors is not covered',
     'fourier_transform_unitary_structure / isospectrality: numeric oracle only',
+    'dual_basis_jellium_model ignores non_periodic / period_cutoff (the truncated Coulomb factor is only applied in plane_wave_potential): known finding C13-dual-basis-non-periodic',
     'isospectrality of momentum-space and position-space jellium fails on non-orthogonal cells with mixed even / >= 3 grid lengths: known finding C13-jellium-sheared-even',
 ]
 
@@ -1086,13 +1087,15 @@ def stream_grid(ctx):
                               {'max_difference': float(numpy.max(numpy.abs(expect - Tdb))), 'spin': sp})
             # isospectrality and the direct qubit form
             if nq <= 8:
-                sa = of.get_sparse_operator(flags[(True, True, False)], nq).toarray()
-                sb = of.get_sparse_operator(flags[(False, True, False)], nq).toarray()
-                ea, eb = numpy.linalg.eigvalsh(sa), numpy.linalg.eigvalsh(sb)
-                s.float_comparisons += len(ea)
-                if numpy.max(numpy.abs(ea - eb)) > 1e-8:
-                    s.violate('momentum-space and position-space jellium are not isospectral', c,
-                              {'max_difference': float(numpy.max(numpy.abs(ea - eb)))})
+                for nonper in (False, True):
+                    sa = of.get_sparse_operator(flags[(True, True, nonper)], nq).toarray()
+                    sb = of.get_sparse_operator(flags[(False, True, nonper)], nq).toarray()
+                    ea, eb = numpy.linalg.eigvalsh(sa), numpy.linalg.eigvalsh(sb)
+                    s.float_comparisons += len(ea)
+                    s.count('isospectrality:non_periodic=%s' % nonper)
+                    if numpy.max(numpy.abs(ea - eb)) > 1e-8:
+                        s.violate('momentum-space and position-space jellium are not isospectral', dict(c, non_periodic=nonper),
+                                  {'max_difference': float(numpy.max(numpy.abs(ea - eb)))})
             for const in (True, False):
                 try:
                     Q = jm.jordan_wigner_dual_basis_jellium(g, spinless, const)
@@ -1129,12 +1132,21 @@ def classify(v):
                                               or what.startswith('momentum-space and position-space jellium are not isospectral')):
         if sheared_even_class(c):
             return 'C13-jellium-sheared-even'
+    if v.get('stream') == 'grid-jellium' and what.startswith('momentum-space and position-space jellium are not isospectral') \
+            and c.get('non_periodic') is True:
+        return 'C13-dual-basis-non-periodic'
     return None
 
 
 def probe_known(ctx, k):
     of = ctx.of
     try:
+        if k['id'] == 'C13-dual-basis-non-periodic':
+            from openfermion.utils import Grid
+            g = Grid(1, 3, 1.5)
+            a = of.dual_basis_jellium_model(g, True, False, True, False, False)
+            b = of.dual_basis_jellium_model(g, True, False, True, False, True)
+            return a == b
         if k['id'] == 'C13-jellium-sheared-even':
             import numpy
             from openfermion.utils import Grid
